@@ -8,7 +8,7 @@
 From Coq Require Import List Arith.
 From EN Require Import Lib.Bytes Frame.Framer Frame.ReadUntil Frame.BufReadUntil Stream.Consumer Stream.SpecDecode
   Stream.Endpoint Stream.EndpointSpec Conc.StreamServer Conc.StreamServerSpec Proofs.C15_proofs Proofs.C03_fixed
-  Proofs.C15_instances.
+  Conc.StreamServerMulti Proofs.C15_multi Proofs.C15_instances.
 Import ListNotations.
 
 (* The requests sent and the parse errors thrown into the handler generators, in order and concatenated over generator
@@ -157,6 +157,50 @@ Proof.
     apply (safe_frame _ _ _ 1); [reflexivity|repeat constructor|]. apply safe_end; [reflexivity|vm_compute; repeat constructor].
   - vm_compute. repeat constructor.
 Qed.
+
+(* ==================================================================================================================
+   Several connections on one server (Conc/StreamServerMulti.v): server state = list of per-connection task states,
+   server label = id of the connection whose task runs one step (first anext / one receive-and-resume iteration). *)
+
+(* frame: a step of connection a leaves the component of every other connection unchanged *)
+Theorem connections_frame :
+  forall (P C : Type) (M : machine P C) (s : list (@conn P C)) (a b : nat),
+    a <> b -> nth_error (supdate M s a) b = nth_error s b.
+Proof. exact (@supdate_other). Qed.
+Print Assumptions connections_frame.
+
+(* hence, after ANY interleaving, the component of connection a is its own task stepped as often as a was scheduled *)
+Theorem connection_projection :
+  forall (P C : Type) (M : machine P C) (sch : list nat) (s : list (@conn P C)) (a : nat),
+    nth_error (srun M s sch) a = option_map (conn_iter M (count_occ Nat.eq_dec sch a)) (nth_error s a).
+Proof. exact (@srun_projection). Qed.
+Print Assumptions connection_projection.
+
+(* and a connection scheduled often enough has run exactly the single-connection task client_coroutine *)
+Theorem connection_runs_its_own_task :
+  forall (P C : Type) (M : machine P C) (l : list (nat * list hact * C * speer)) (sch : list nat)
+         (a oc : nat) (acts0 : list hact) (c : C) (o : speer),
+    nth_error l a = Some (oc, acts0, c, o) ->
+    S (S (S (length acts0))) < count_occ Nat.eq_dec sch a ->
+    nth_error (srun M (accept l) sch) a = Some (CDone (client_coroutine M oc acts0 c o)).
+Proof. exact (@multi_result). Qed.
+Print Assumptions connection_runs_its_own_task.
+
+(* requests_exactly_once_in_order per connection, under any interleaving with any other connections *)
+Theorem requests_exactly_once_in_order_multi :
+  forall (P C : Type) (M : machine P C) (spec : bytes -> list (nres P)) (G : bytes -> Prop)
+         (R : C -> bytes -> nat -> Prop) (D : C -> bytes -> Prop),
+    consumer_ok_rel M spec G R D ->
+    forall c0 : C, R c0 [] 0 ->
+    forall (l : list (nat * list hact * C * speer)) (sch : list nat) (a oc : nat) (acts0 : list hact) (o : speer),
+      nth_error l a = Some (oc, acts0, c0, o) ->
+      G (sstream_of o) ->
+      S (S (S (length acts0))) < count_occ Nat.eq_dec sch a ->
+      exists f, nth_error (srun M (accept l) sch) a = Some (CDone f) /\
+                (exists n, got_log (ulog (f_user f)) = firstn n (spec (sstream_of o))) /\
+                (f_eof f = true -> got_log (ulog (f_user f)) = spec (sstream_of o)).
+Proof. exact (@multi_requests_in_order). Qed.
+Print Assumptions requests_exactly_once_in_order_multi.
 
 (* ---- non-vacuity: size 2, identity codec; the peer sends "ab" at 0, "c" at 3, "d" at 9, closes at 12; the handler:
    generator 0 yields None, takes "ab", yields timeout 4 (deadline 4: "c" alone completes nothing -> TimeoutError at 4),
